@@ -146,6 +146,20 @@ def run(tier, seed):
                     ds = mod.wrap_dataset(cls(make_td(n)))
                     recs.append(record_pass(mod._dataloader_single(ds, b, shuffle), orig, n, b, shuffle, True,
                                             cname + " via REINFORCE.wrap_dataset/_dataloader_single, eval batch %d" % mod.val_batch_size))
+    # instances that reach the dataset classes through a FILE (save_tensordict_to_npz -> load_npz_to_tensordict, the loader
+    # behind env.dataset for train / val / test files): same items, same order, same dtypes (float64, int32, bool keys included)
+    import os
+    from rl4co.data.utils import load_npz_to_tensordict, save_tensordict_to_npz
+    fdir = os.path.join(tlc.OUT, "c17_files")
+    os.makedirs(fdir, exist_ok=True)
+    for n in (3, 7):
+        orig = make_td(n)
+        fn = os.path.join(fdir, "inst_%d.npz" % n)
+        save_tensordict_to_npz(make_td(n), fn)
+        for cname, cls in classes().items():
+            ds = cls(load_npz_to_tensordict(fn))
+            recs.append(record_pass(DataLoader(ds, batch_size=2, shuffle=False, collate_fn=ds.collate_fn), orig, n, 2, False, False,
+                                    cname + " over instances read back from an npz file"))
     # explicit index orders (a custom / shuffling batch sampler): the batch must hold exactly the requested items in the
     # requested order -- including orders that LOOK like a contiguous range (first and last index span the batch) and repeats
     n = 7
